@@ -148,6 +148,18 @@ func executeKeySet(t *testing.T, prop string, seed uint64, p *KeySetPlan) *core.
 			dotted = d
 		}
 	}
+	// ... or a client whose hello names the target's config and suite but
+	// carries an encapsulated key no key can use (refused or passed through, it
+	// must not change what the server does for the next client)
+	var badEnc *built
+	if !never {
+		db := base
+		db.Expect = "reject"
+		db.Mutations = []Mutation{{Kind: "bad-enc", A: int(core.Mix(seed, "earlier-bad-enc") % 4)}}
+		if d, derr := buildScript(core.Mix(seed, "badenc"), &db); derr == nil {
+			badEnc = d
+		}
+	}
 	lists := permLists(len(pool))
 	if p.OnlyList != nil {
 		lists = [][]int{p.OnlyList}
@@ -220,6 +232,15 @@ func executeKeySet(t *testing.T, prop string, seed uint64, p *KeySetPlan) *core.
 				fail("key-list-modified", "NewConn modified the caller's key list", "after a connection whose outer SNI is the public name with a trailing dot")
 				continue
 			}
+		}
+		if li%4 == 3 && badEnc != nil && slices.Contains(l, 0) {
+			dsc := simnet.NewScript(badEnc.outerRec)
+			dsc.NoEOF = true
+			if pk, m, s := core.Guard(func() { ech.NewConn(context.Background(), dsc, opts...) }); pk {
+				fail("panic", s+": "+normMsg(m), "NewConn (earlier connection with an unusable encapsulated key)")
+				continue
+			}
+			res.Probe("earlier_connection_bad_enc")
 		}
 		sc := simnet.NewScript(b.outerRec)
 		sc.NoEOF = true
